@@ -71,6 +71,10 @@ type Violation struct {
 	Validated bool        `json:"validated"`
 	Schedule  bool        `json:"schedule,omitempty"` // found under explicit schedule exploration
 	Trace     []string    `json:"trace,omitempty"`
+	// Sites: statements of the code under test ("file:line") between which the failing
+	// interleaving switches goroutines, or which form the unordered pair of a data race; the
+	// native replay widens the windows there (delay injection) when a plain run passes.
+	Sites []string `json:"sites,omitempty"`
 }
 
 // PathResult summarises one explored path.
@@ -125,6 +129,12 @@ type Machine struct {
 	schedOn  bool
 	schedUsed bool
 	preempts int
+	advPath   string // path the environment may create (verifFsAdversary)
+	advActed  bool
+	advGen    int
+	siteCache map[token.Pos]string
+	topFrame *frame   // frame of the instruction being executed
+	sites    []string // statements of the code under test at which this path was preempted (schedule mode)
 	preemptBound int
 	schedChans bool
 
@@ -695,6 +705,10 @@ func (m *Machine) mkViolation(kind, msg string, as *Assignment) *Violation {
 	}
 	v.Decisions = append([]int32(nil), m.decisions...)
 	v.Schedule = m.schedUsed
+	v.Sites = append([]string(nil), m.sites...)
+	if kind == "RACE-CANDIDATE" && m.lockset != nil {
+		v.Sites = append([]string(nil), m.lockset.sites...)
+	}
 	v.Trace = append([]string(nil), m.trace...)
 	return v
 }
@@ -793,6 +807,9 @@ func (m *Machine) resetPath(prefix []int32) {
 	m.schedOn = false
 	m.schedUsed = false
 	m.preempts = 0
+	m.sites = nil
+	m.topFrame = nil
+	m.advPath, m.advActed, m.advGen = "", false, 0
 	m.preemptBound = 2
 	m.mutexes = map[*Value]*mutexState{}
 	m.ghostFS = map[string]*ghostFile{}
@@ -976,9 +993,11 @@ func (m *Machine) panicString(v Value) string {
 
 func (m *Machine) initGlobals() {
 	m.globals = map[*ssa.Global]*Value{}
+	m.P.sharedMu.RLock()
 	for g, v := range m.P.sharedGlobals {
 		m.globals[g] = v
 	}
+	m.P.sharedMu.RUnlock()
 	for _, pkg := range m.P.perPathPkgs {
 		for _, mem := range pkg.Members {
 			if g, ok := mem.(*ssa.Global); ok {
@@ -993,7 +1012,22 @@ func (m *Machine) global(g *ssa.Global) *Value {
 	if v, ok := m.globals[g]; ok {
 		return v
 	}
-	// lazily allocate globals of packages whose init is not run
+	// a global of a package whose initialiser the engine does not run: its value would be the
+	// zero value, not what the program sees. Only globals without initialiser are safe.
+	if g.Pkg != nil && !m.P.isInitRun(g.Pkg) && m.P.hasInitializer(g) {
+		// standard-library packages are initialised on first use (their globals are treated as
+		// immutable afterwards and shared between paths); anything else is not run at all
+		if !m.P.lazyInit(g.Pkg) {
+			unsupportedf("package %s is not initialised by the engine (global %s)", g.Pkg.Pkg.Path(), g.Name())
+		}
+		m.P.sharedMu.RLock()
+		v, ok := m.P.sharedGlobals[g]
+		m.P.sharedMu.RUnlock()
+		if ok {
+			m.globals[g] = v
+			return v
+		}
+	}
 	cell := zero(deref(g.Type()))
 	m.globals[g] = &cell
 	return &cell
